@@ -84,7 +84,11 @@ func parseProg(t []string) []opSpec {
 		o := t[i:j]
 		switch {
 		case len(o) == 3 && o[0] == "add":
-			prog = append(prog, opSpec{"add", ev(o[1]), int64(vh.U(o[2]))})
+			a := vh.I(o[2]) // signed: the API takes int64 (decrements, roll-backs)
+			if a < 0 && ev(o[1]) == base.MetricEventRt {
+				panic("negative rt")
+			}
+			prog = append(prog, opSpec{"add", ev(o[1]), a})
 		case len(o) == 2 && o[0] == "conc":
 			prog = append(prog, opSpec{"conc", 0, int64(vh.U(o[1]))})
 		case len(o) == 2 && o[0] == "count":
